@@ -612,6 +612,7 @@ type depthCase struct {
 	Width  int    `json:"width,omitempty"` // > 1: that many records per level (empty siblings before the nested one)
 	Cycle  int    `json:"cycle,omitempty"` // > 0: use the (Cycle-1)-th cycle of cyclePaths instead of the first one found
 	Overrun int   `json:"overrun,omitempty"` // > 0: field number of a map: Levels entries whose key (negative Limit) or value length claims the rest of the input
+	Groups int    `json:"groups,omitempty"` // > 0: that many nested start-group tags of an undeclared field number (closed again), holding one varint
 	Alloc  int    `json:"alloc,omitempty"` // > 0: allocation growth between Levels and 2*Levels with an unknown record per level (1 varint before, 2 varint after, 3 bytes before, 4 bytes after the child)
 }
 
@@ -700,6 +701,14 @@ func runDepthArm(ctx *Ctx) {
 			cases = append(cases, depthCase{Type: string(t.Name), Hops: w, Limit: len(w) + 1, Width: 3}, depthCase{Type: string(t.Name), Hops: w, Limit: len(w), Width: 3})
 		}
 	}
+	for ti, t := range model.Types() {
+		if (ctx.OnlyFresh && !t.Fresh) || ti%ctx.NShards != ctx.Shard || (ctx.Quick() && (ti/ctx.NShards+int(ctx.Seed))%4 != 0) {
+			continue
+		}
+		for _, n := range []int{100, 9999, 10000, 10001, 10002, 10003, 20000} {
+			cases = append(cases, depthCase{Type: string(t.Name), Groups: n})
+		}
+	}
 	for _, t := range model.Types() {
 		if ctx.OnlyFresh && !t.Fresh {
 			continue
@@ -769,7 +778,7 @@ func runDepthArm(ctx *Ctx) {
 			var dc depthCase
 			parts := strings.SplitN(strings.TrimPrefix(ln, "DEPTH-BAD "), " :: ", 2)
 			_ = json.Unmarshal([]byte(parts[0]), &dc)
-			ctx.Violation(&Case{Sub: "depth", Type: dc.Type, Args: map[string]string{"levels": strconv.Itoa(dc.Levels), "limit": strconv.Itoa(dc.Limit), "hops": hopsStr(dc.Hops), "width": strconv.Itoa(dc.Width), "alloc": strconv.Itoa(dc.Alloc), "cycle": strconv.Itoa(dc.Cycle), "overrun": strconv.Itoa(dc.Overrun)}}, parts[1])
+			ctx.Violation(&Case{Sub: "depth", Type: dc.Type, Args: map[string]string{"levels": strconv.Itoa(dc.Levels), "limit": strconv.Itoa(dc.Limit), "hops": hopsStr(dc.Hops), "width": strconv.Itoa(dc.Width), "alloc": strconv.Itoa(dc.Alloc), "cycle": strconv.Itoa(dc.Cycle), "overrun": strconv.Itoa(dc.Overrun), "groups": strconv.Itoa(dc.Groups)}}, parts[1])
 			ctx.T.Fail()
 			current = ""
 		case ln == "DEPTH-DONE":
@@ -780,7 +789,7 @@ func runDepthArm(ctx *Ctx) {
 		// the child died: the case it announced last is the witness
 		var dc depthCase
 		if current != "" && json.Unmarshal([]byte(current), &dc) == nil {
-			ctx.Violation(&Case{Sub: "depth", Type: dc.Type, Args: map[string]string{"levels": strconv.Itoa(dc.Levels), "limit": strconv.Itoa(dc.Limit), "hops": hopsStr(dc.Hops), "width": strconv.Itoa(dc.Width), "alloc": strconv.Itoa(dc.Alloc), "cycle": strconv.Itoa(dc.Cycle), "overrun": strconv.Itoa(dc.Overrun)}},
+			ctx.Violation(&Case{Sub: "depth", Type: dc.Type, Args: map[string]string{"levels": strconv.Itoa(dc.Levels), "limit": strconv.Itoa(dc.Limit), "hops": hopsStr(dc.Hops), "width": strconv.Itoa(dc.Width), "alloc": strconv.Itoa(dc.Alloc), "cycle": strconv.Itoa(dc.Cycle), "overrun": strconv.Itoa(dc.Overrun), "groups": strconv.Itoa(dc.Groups)}},
 				fmt.Sprintf("child process died while decoding nesting depth %d with RecursionLimit %d (err=%v): %s", dc.Levels, dc.Limit, err, trunc(tailStr(out.String(), 600), 600)))
 			ctx.T.Fail()
 		} else {
@@ -812,7 +821,7 @@ func depthChild() {
 		if err != nil {
 			fmt.Printf("DEPTH-BAD %s :: %s\n", js, strings.ReplaceAll(err.Error(), "\n", " | "))
 		} else {
-			fmt.Printf("DEPTH-OK %s %d/%s/w%d/a%d/c%d/o%d %d %s\n", dc.Type, dc.Levels, hopsStr(dc.Hops), dc.Width, dc.Alloc, dc.Cycle, dc.Overrun, dc.Limit, verdict)
+			fmt.Printf("DEPTH-OK %s %d/%s/w%d/a%d/c%d/o%d/g%d %d %s\n", dc.Type, dc.Levels, hopsStr(dc.Hops), dc.Width, dc.Alloc, dc.Cycle, dc.Overrun, dc.Groups, dc.Limit, verdict)
 		}
 	}
 	fmt.Println("DEPTH-DONE")
@@ -905,6 +914,51 @@ func overrunInput(fd protoreflect.FieldDescriptor, n, which int) []byte {
 	return b
 }
 
+// checkDeepGroups: n nested groups of a field number the type does not declare.
+// The reference decoder follows protowire's limit; whatever the generated
+// decoder accepts must be usable afterwards (Equal with a slightly different
+// message parses the unknown fields of both).
+func checkDeepGroups(t *model.Type, n int) (string, error) {
+	num := protowire.Number(19000 + n%7)
+	build := func(v uint64) []byte {
+		var b []byte
+		for i := 0; i < n; i++ {
+			b = protowire.AppendTag(b, num, protowire.StartGroupType)
+		}
+		b = protowire.AppendVarint(protowire.AppendTag(b, 1, protowire.VarintType), v)
+		for i := 0; i < n; i++ {
+			b = protowire.AppendTag(b, num, protowire.EndGroupType)
+		}
+		return b
+	}
+	in, in2 := build(1), build(2)
+	derr := proto.Unmarshal(in, t.NewD())
+	res, hung := decodeGuarded(t, in, proto.UnmarshalOptions{}, false)
+	if hung {
+		return "", fmt.Errorf("Unmarshal of %d nested unknown groups did not return within the watchdog", n)
+	}
+	if res.panicked != nil {
+		return "", fmt.Errorf("Unmarshal of %d nested unknown groups panicked: %v", n, res.panicked)
+	}
+	if (derr == nil) != (res.err == nil) {
+		return "", fmt.Errorf("%d nested groups of an undeclared field number: reference says %v, generated code says %v", n, derr, res.err)
+	}
+	if res.err != nil {
+		return "groups-both-reject", nil
+	}
+	other := t.New()
+	if err := proto.Unmarshal(in2, other); err != nil {
+		return "", fmt.Errorf("%d nested unknown groups accepted with payload 1 but rejected with payload 2: %v", n, err)
+	}
+	if err := usable(nil, t, in, res.p); err != nil {
+		return "", fmt.Errorf("message with %d nested unknown groups accepted by Unmarshal is not usable afterwards: %v", n, err)
+	}
+	if perr := safely(func() error { _ = proto.Equal(res.p, other); _ = proto.Equal(other, res.p); return nil }); perr != nil {
+		return "", fmt.Errorf("proto.Equal of two accepted messages holding %d nested unknown groups panics: %v", n, perr)
+	}
+	return "groups-both-accept", nil
+}
+
 func checkOverrun(t *model.Type, dc depthCase) (string, error) {
 	fd := t.Desc.Fields().ByNumber(protoreflect.FieldNumber(dc.Overrun))
 	which := 2
@@ -946,6 +1000,9 @@ func checkDepth(dc depthCase) (string, error) {
 	}
 	if dc.Overrun > 0 {
 		return checkOverrun(t, dc)
+	}
+	if dc.Groups > 0 {
+		return checkDeepGroups(t, dc.Groups)
 	}
 	if dc.Alloc > 0 {
 		path := cyclePath(t.Desc)
@@ -1004,7 +1061,7 @@ func checkDepth(dc depthCase) (string, error) {
 func replayC06(ctx *Ctx, c *Case) error {
 	switch c.Sub {
 	case "depth":
-		_, err := checkDepth(depthCase{Type: c.Type, Levels: c.argInt("levels"), Limit: c.argInt("limit"), Hops: parseHops(c.arg("hops")), Width: c.argInt("width"), Alloc: c.argInt("alloc"), Cycle: c.argInt("cycle"), Overrun: c.argInt("overrun")})
+		_, err := checkDepth(depthCase{Type: c.Type, Levels: c.argInt("levels"), Limit: c.argInt("limit"), Hops: parseHops(c.arg("hops")), Width: c.argInt("width"), Alloc: c.argInt("alloc"), Cycle: c.argInt("cycle"), Overrun: c.argInt("overrun"), Groups: c.argInt("groups")})
 		return err
 	case "fuzz":
 		return fuzzOne(ctx, unhex(c.Bytes))
